@@ -60,6 +60,19 @@ enum PendingBlock {
     ScBool {
         jump_instrs: Vec<u32>,
     },
+    /// A construct that has to undo something when it is left early by
+    /// a `break` or `continue`.
+    #[cfg(feature = "loop_controls")]
+    Scope(ScopeCleanup),
+}
+
+/// What a scoped construct pushed and a loop control has to undo.
+#[cfg(feature = "loop_controls")]
+#[derive(Copy, Clone)]
+enum ScopeCleanup {
+    Frame,
+    Capture,
+    AutoEscape,
 }
 
 const CODEGEN_POOL_MAX_ITEMS: usize = 64;
@@ -244,6 +257,50 @@ impl<'source> CodeGenerator<'source> {
         }
     }
 
+    /// Marks the begin of a construct that needs cleanup when a loop
+    /// control jumps out of it.
+    #[cfg(feature = "loop_controls")]
+    fn enter_scope(&mut self, cleanup: ScopeCleanup) {
+        self.pending_block.push(PendingBlock::Scope(cleanup));
+    }
+
+    /// Marks the end of a construct opened with `enter_scope`.
+    #[cfg(feature = "loop_controls")]
+    fn leave_scope(&mut self) {
+        match self.pending_block.pop() {
+            Some(PendingBlock::Scope(_)) => {}
+            _ => unreachable!(),
+        }
+    }
+
+    /// Emits the cleanup of all constructs a `break` or `continue` leaves
+    /// on its way to the enclosing loop.
+    #[cfg(feature = "loop_controls")]
+    fn leave_scopes_for_loop_control(&mut self) {
+        let mut cleanups = Vec::new();
+        for pending_block in self.pending_block.iter().rev() {
+            match pending_block {
+                PendingBlock::Loop { .. } => break,
+                PendingBlock::Scope(cleanup) => cleanups.push(*cleanup),
+                _ => {}
+            }
+        }
+        for cleanup in cleanups {
+            match cleanup {
+                ScopeCleanup::Frame => {
+                    self.add(Instruction::PopFrame);
+                }
+                ScopeCleanup::Capture => {
+                    self.add(Instruction::EndCapture);
+                    self.add(Instruction::DiscardTop);
+                }
+                ScopeCleanup::AutoEscape => {
+                    self.add(Instruction::PopAutoEscape);
+                }
+            }
+        }
+    }
+
     /// Begins an if conditional
     pub fn start_if(&mut self) {
         let jump_instr = self.add(Instruction::JumpIfFalse(!0));
@@ -346,9 +403,13 @@ impl<'source> CodeGenerator<'source> {
                     self.compile_expr(expr);
                     self.compile_assignment(target);
                 }
+                #[cfg(feature = "loop_controls")]
+                self.enter_scope(ScopeCleanup::Frame);
                 for node in &with_block.body {
                     self.compile_stmt(node);
                 }
+                #[cfg(feature = "loop_controls")]
+                self.leave_scope();
                 self.add(Instruction::PopFrame);
             }
             ast::Stmt::Set(set) => {
@@ -359,9 +420,13 @@ impl<'source> CodeGenerator<'source> {
             ast::Stmt::SetBlock(set_block) => {
                 self.set_line_from_span(set_block.span());
                 self.add(Instruction::BeginCapture(CaptureMode::Capture));
+                #[cfg(feature = "loop_controls")]
+                self.enter_scope(ScopeCleanup::Capture);
                 for node in &set_block.body {
                     self.compile_stmt(node);
                 }
+                #[cfg(feature = "loop_controls")]
+                self.leave_scope();
                 self.add(Instruction::EndCapture);
                 if let Some(ref filter) = set_block.filter {
                     self.compile_expr(filter);
@@ -372,17 +437,25 @@ impl<'source> CodeGenerator<'source> {
                 self.set_line_from_span(auto_escape.span());
                 self.compile_expr(&auto_escape.enabled);
                 self.add(Instruction::PushAutoEscape);
+                #[cfg(feature = "loop_controls")]
+                self.enter_scope(ScopeCleanup::AutoEscape);
                 for node in &auto_escape.body {
                     self.compile_stmt(node);
                 }
+                #[cfg(feature = "loop_controls")]
+                self.leave_scope();
                 self.add(Instruction::PopAutoEscape);
             }
             ast::Stmt::FilterBlock(filter_block) => {
                 self.set_line_from_span(filter_block.span());
                 self.add(Instruction::BeginCapture(CaptureMode::Capture));
+                #[cfg(feature = "loop_controls")]
+                self.enter_scope(ScopeCleanup::Capture);
                 for node in &filter_block.body {
                     self.compile_stmt(node);
                 }
+                #[cfg(feature = "loop_controls")]
+                self.leave_scope();
                 self.add(Instruction::EndCapture);
                 self.compile_expr(&filter_block.filter);
                 self.add(Instruction::Emit);
@@ -440,6 +513,7 @@ impl<'source> CodeGenerator<'source> {
             #[cfg(feature = "loop_controls")]
             ast::Stmt::Continue(cont) => {
                 self.set_line_from_span(cont.span());
+                self.leave_scopes_for_loop_control();
                 for pending_block in self.pending_block.iter().rev() {
                     if let PendingBlock::Loop { iter_instr, .. } = pending_block {
                         self.add(Instruction::Jump(*iter_instr));
@@ -450,6 +524,7 @@ impl<'source> CodeGenerator<'source> {
             #[cfg(feature = "loop_controls")]
             ast::Stmt::Break(brk) => {
                 self.set_line_from_span(brk.span());
+                self.leave_scopes_for_loop_control();
                 let instr = self.add(Instruction::Jump(0));
                 for pending_block in self.pending_block.iter_mut().rev() {
                     if let &mut PendingBlock::Loop {
